@@ -139,6 +139,27 @@ def rule_table(ctx, res, src, impl, base):
                   'maximal munch differ'.format(
                       stats.get('product_states'),
                       stats.get('alphabet_classes')))
+    if ctx.tier == 'thorough':
+        # cross-check of the alphabet compression: every byte its own class
+        st2 = {}
+        dis2, amb2 = lexmodel.compare(
+            impl, reference,
+            {'number': frozenset(ref.MALFORMED_AFTER_NUMBER)}, stats=st2,
+            uncompressed=True)
+        k1 = {d.key(impl, reference) for d in dis}
+        k2 = {d.key(impl, reference) for d in dis2}
+        res.stats['product_states_uncompressed'] = st2.get('product_states')
+        if k1 != k2 or len(amb) != len(amb2):
+            res.undecided('R-C07-table', where, 'alphabet compression',
+                          'compressed and uncompressed alphabets give '
+                          'different disagreement classes: {} vs {}'.format(
+                              sorted(k1 ^ k2)[:3], len(k2)))
+        else:
+            res.holds('R-C07-table', where,
+                      'byte-class compression is exact',
+                      'same result with all 256 byte values as separate '
+                      'symbols ({} product states)'.format(
+                          st2.get('product_states')))
     # structure facts the model relies on
     res.check(src.state_order_ok, 'R-C07-table',
               'pico8.lua.lexer:Lexer._process_token',
